@@ -56,9 +56,9 @@ def superDiag (n c : Nat) : AMat Int n := AMat.ofFn fun i j => b2i (j.val == i.v
 `seq2[count-1] = n - count` (the clip makes the antipodal band `count = n/2` of an even ring,
 where both offsets coincide, a 0/1 band like the others) -/
 def band (n count : Nat) : AMat Int n :=
-  AMat.ofFn fun i j =>
-    min ((superDiag n count).get i j + (superDiag n count).get j i +
-         (superDiag n (n - count)).get i j + (superDiag n (n - count)).get j i) 1
+  let d1 := superDiag n count            -- built once, not per cell
+  let d2 := superDiag n (n - count)
+  AMat.ofFn fun i j => min (d1.get i j + d1.get j i + d2.get i j + d2.get j i) 1
 
 def matAdd {n} (A B : AMat Int n) : AMat Int n := AMat.ofFn fun i j => A.get i j + B.get i j
 
